@@ -133,7 +133,9 @@ def loader(check: Check, qual: str, rule: str = "LD") -> None:
             return w.hedges["any" if t.kind == "any" else "very"]
         raise Internal("ValueError", "constructing a hedge that is not registered", e)
 
-    hooks = {"contains": contains, "method:construct": construct, "method:debug": lambda *a: None, "method:info": lambda *a: None}
+    printed = lambda ex_, e, recv, args, kw: Opaque("the loaded expression, printed")  # noqa: E731
+    hooks = {"contains": contains, "method:construct": construct, "method:debug": lambda *a: None, "method:info": lambda *a: None,
+             "method:infix": printed, "method:postfix": printed, "method:prefix": printed}
     helpers = {k: v for k, v in fn.cls.methods.items() if k in ("unload",) or (k.startswith("_") and not k.startswith("__"))}
     ex = AbsExec(qual, hooks, helpers=helpers)
     params = [a.arg for a in node.args.args]
@@ -247,6 +249,10 @@ def loader(check: Check, qual: str, rule: str = "LD") -> None:
                 note("end-accepts", f"{where}: the text ends in grammar state {rst[0]}" + (f" with {rst[2]} expressions on the stack" if kind == "antecedent" else "")
                      + (" but is accepted" if got_end[0] == "return" else f" and is rejected with {got_end[1]} instead of SyntaxError"), got_end[2] if len(got_end) > 2 else None)
             elif acc:
+                if so.fields.get("text") != selfobj.fields["text"]:
+                    # loading reads the text; a text rewritten from the loaded tree is another text (the printed forms carry no parentheses),
+                    # and it is what the next load - a reload, a restart, a copy - will read
+                    note("end-result", f"{where}: loading rewrites the {kind}'s own text", None)
                 if kind == "antecedent":
                     e_ = so.fields.get("expression")
                     if not (isinstance(e_, MObj) and e_.cls == "Leaf" and e_.fields.get("n") == 0):
